@@ -37,7 +37,7 @@ def strategy(tier):
     def _s(draw):
         model = G.gen_model(draw, cfg)
         comps = sorted({x["comps"][0] for x in model["states"] + model["params"] + model["assigns"]})
-        if len(comps) < 2 or "" in comps:
+        if len(comps) < 2:
             # force two named components
             names = ["Membrane", "buffers"]
             for i, s in enumerate(model["states"]):
